@@ -131,13 +131,13 @@ func c16kIdx(tok string) int {
 }
 
 type c16kNode struct {
-	id   int
-	name string // the name InheritDialerHealthFrom matches on (inherited from the old generation's node)
-	d    *dialer.Dialer
+	id     int
+	nameId int // the name InheritDialerHealthFrom matches on is "n<nameId>"; distinct objects may share it
+	d      *dialer.Dialer
 }
 type c16kGroup struct {
 	id, ob  int
-	name    string
+	nameId  int // group name "g<nameId>"
 	pol     string
 	g       *outbound.DialerGroup
 	members []*c16kNode
@@ -163,7 +163,7 @@ func TestVerifC16Kernel(t *testing.T) {
 	// (a) the closure itself: exactly one slot of the whole map changes, to the expected value; nothing
 	// changes when the core is closed or retired, or for a non-init callback in dry-run mode
 	c16kFill(m)
-	for _, ob := range []int{0, 1, 2, 7, 41, 255} {
+	for _, ob := range []int{0, 1, 2, 42, 43, 127, 128, 250, 251, 255} {
 		for _, tok := range c16kAll {
 			for _, alive := range []bool{false, true} {
 				for _, init := range []bool{false, true} {
@@ -261,26 +261,27 @@ func TestVerifC16Kernel(t *testing.T) {
 			fmt.Fprintf(&sb, "] K[%s]", kb.String())
 			return sb.String()
 		}
-		addNode := func(addr int, name string) *c16kNode {
-			n := &c16kNode{id: len(nodes), name: name}
-			if n.name == "" {
-				n.name = fmt.Sprintf("n%d", n.id)
+		addNode := func(addr int, nameId int) *c16kNode {
+			n := &c16kNode{id: len(nodes), nameId: nameId}
+			if nameId < 0 {
+				n.nameId = n.id
 			}
 			a := ""
 			if addr != 0 {
 				a = fmt.Sprintf("addr%d", addr)
 			}
 			n.d = dialer.NewDialer(c16kNoop{}, opt, dialer.InstanceOption{DisableCheck: true},
-				&dialer.Property{Property: D.Property{Name: n.name, Address: a}})
+				&dialer.Property{Property: D.Property{Name: fmt.Sprintf("n%d", n.nameId), Address: a}})
 			nodes = append(nodes, n)
 			st.Emit(fmt.Sprintf("node %d %d |", n.id, addr), state())
 			return n
 		}
-		addGroup := func(members []*c16kNode, pol, name string) *c16kGroup {
-			g := &c16kGroup{id: len(groups), pol: pol, name: name, members: members}
-			g.ob = 2 + g.id
-			if g.name == "" {
-				g.name = fmt.Sprintf("g%d", g.id)
+		addGroup := func(members []*c16kNode, pol string, nameId int) *c16kGroup {
+			g := &c16kGroup{id: len(groups), pol: pol, nameId: nameId, members: members}
+			// outbound ids over the whole uint8 range (the key base must not be computed in uint8)
+			g.ob = (2 + g.id*47) % 254 // distinct per group, spread over the whole uint8 range
+			if nameId < 0 {
+				g.nameId = g.id
 			}
 			ds := make([]*dialer.Dialer, len(members))
 			ans := make([]*dialer.Annotation, len(members))
@@ -290,7 +291,7 @@ func TestVerifC16Kernel(t *testing.T) {
 				ans[i] = &dialer.Annotation{}
 				ms = append(ms, fmt.Sprintf("%d:0", mm.id))
 			}
-			g.g = outbound.NewDialerGroup(opt, g.name, ds, ans,
+			g.g = outbound.NewDialerGroup(opt, fmt.Sprintf("g%d", g.nameId), ds, ans,
 				outbound.DialerSelectionPolicy{Policy: pols[g.pol]}, core.outboundAliveChangeCallback(uint8(g.ob), false))
 			groups = append(groups, g)
 			mstr := "-"
@@ -301,10 +302,18 @@ func TestVerifC16Kernel(t *testing.T) {
 			stats.Inc("group." + g.pol)
 			return g
 		}
+		hasName := func(ms []*c16kNode, nameId int) bool {
+			for _, x := range ms {
+				if x.nameId == nameId {
+					return true
+				}
+			}
+			return false
+		}
 		pick := func(pool []*c16kNode, pol string) []*c16kNode {
 			var ms []*c16kNode
 			for _, n := range pool {
-				if r.Chance(0.7) {
+				if r.Chance(0.7) && !hasName(ms, n.nameId) {
 					ms = append(ms, n)
 				}
 			}
@@ -321,11 +330,22 @@ func TestVerifC16Kernel(t *testing.T) {
 		}
 		nn := 1 + r.Intn(4)
 		for i := 0; i < nn; i++ {
-			curNodes = append(curNodes, addNode([]int{0, 1, 1}[r.Intn(3)], ""))
+			curNodes = append(curNodes, addNode([]int{0, 1, 1}[r.Intn(3)], -1))
 		}
 		for i := 1 + r.Intn(3); i > 0; i-- {
 			pol := polNames[r.Intn(len(polNames))]
-			curGroups = append(curGroups, addGroup(pick(curNodes, pol), pol, ""))
+			ms := pick(curNodes, pol)
+			// per-group clones (as NewControlPlane's check-option override loop creates them): a distinct
+			// dialer object with the same name, member of this group only, with its own health
+			for k := range ms {
+				if r.Chance(0.3) && len(nodes) < 12 {
+					cl := addNode(0, ms[k].nameId)
+					curNodes = append(curNodes, cl)
+					ms[k] = cl
+					stats.Inc("clone")
+				}
+			}
+			curGroups = append(curGroups, addGroup(ms, pol, -1))
 		}
 		// the reload: a new generation built from the current one, then the real method
 		reload := func() {
@@ -334,13 +354,13 @@ func TestVerifC16Kernel(t *testing.T) {
 			newOf := map[*c16kNode]*c16kNode{}
 			for _, o := range oldNodes {
 				if r.Chance(0.9) {
-					nw := addNode(0, o.name) // same name: matched by the real method
+					nw := addNode(0, o.nameId) // same name (clones stay distinct objects): matched by the real method
 					newOf[o] = nw
 					newNodes = append(newNodes, nw)
 				}
 			}
 			if r.Chance(0.3) {
-				newNodes = append(newNodes, addNode(0, "")) // a node the old generation did not have
+				newNodes = append(newNodes, addNode(0, -1)) // a node the old generation did not have
 			}
 			var newGroups []*c16kGroup
 			for _, og := range oldGroups {
@@ -353,33 +373,59 @@ func TestVerifC16Kernel(t *testing.T) {
 						ms = append(ms, nw)
 					}
 				}
-				if r.Chance(0.3) { // membership edited: add other new nodes
+				if r.Chance(0.3) { // membership edited: add other new nodes (names new to this group)
 					for _, nw := range newNodes {
-						in := false
-						for _, x := range ms {
-							in = in || x == nw
-						}
-						if !in && r.Chance(0.4) {
+						if !hasName(ms, nw.nameId) && r.Chance(0.4) {
 							ms = append(ms, nw)
+						}
+					}
+				}
+				if r.Chance(0.35) && len(oldNodes) > 0 {
+					// a FRESH dialer whose name exists in the old generation, possibly only in ANOTHER old group
+					// (filter change / per-group clone): it must inherit from this group's namesake member or from nobody
+					src := oldNodes[r.Intn(len(oldNodes))]
+					if !hasName(ms, src.nameId) {
+						cl := addNode(0, src.nameId)
+						newNodes = append(newNodes, cl)
+						ms = append(ms, cl)
+						if !hasName(og.members, src.nameId) {
+							stats.Inc("reload.name_only_in_other_group")
 						}
 					}
 				}
 				if og.pol == "random" && len(ms) > 1 {
 					ms = ms[:1]
 				}
-				newGroups = append(newGroups, addGroup(ms, og.pol, og.name))
+				newGroups = append(newGroups, addGroup(ms, og.pol, og.nameId))
 			}
 			if r.Chance(0.4) { // a group without a namesake in the old generation
 				pol := polNames[r.Intn(len(polNames))]
-				newGroups = append(newGroups, addGroup(pick(newNodes, pol), pol, ""))
+				newGroups = append(newGroups, addGroup(pick(newNodes, pol), pol, -1))
 			}
-			// what the real method will capture first (all nodes of the new generation are fresh; the
-			// call is deterministic for min policies / single-member random groups / fixed)
+			j := func(x []string) string {
+				if len(x) == 0 {
+					return "-"
+				}
+				return strings.Join(x, ",")
+			}
+			mem := func(ms []*c16kNode) string {
+				var x []string
+				for _, n := range ms {
+					x = append(x, fmt.Sprintf("%d:%d", n.id, n.nameId))
+				}
+				return j(x)
+			}
+			// both generations are handed to the model, which does the (group name, node name) matching itself;
+			// the fallback is what the real method will capture first (all nodes of the new generation are
+			// fresh; deterministic for min policies / single-member random groups / fixed)
 			var toks []string
-			shared := map[*c16kNode]int{}
+			for _, og := range oldGroups {
+				toks = append(toks, fmt.Sprintf("o/%d/%s", og.nameId, mem(og.members)))
+			}
+			cnt := map[int]int{}
 			for _, ng := range newGroups {
 				fb := ng.g.CaptureReloadSelectionFallback()
-				var fbs, ps []string
+				var fbs []string
 				for i := 0; i < 8; i++ {
 					if fb[i] != nil {
 						for _, n := range nodes {
@@ -389,31 +435,12 @@ func TestVerifC16Kernel(t *testing.T) {
 						}
 					}
 				}
-				var og *c16kGroup
-				for _, x := range oldGroups {
-					if x.name == ng.name {
-						og = x
-					}
+				for _, n := range ng.members {
+					cnt[n.id]++
 				}
-				if og != nil {
-					for _, nw := range ng.members {
-						for _, om := range og.members {
-							if om.name == nw.name {
-								ps = append(ps, fmt.Sprintf("%d:%d", nw.id, om.id))
-								shared[nw]++
-							}
-						}
-					}
-				}
-				j := func(x []string) string {
-					if len(x) == 0 {
-						return "-"
-					}
-					return strings.Join(x, ",")
-				}
-				toks = append(toks, fmt.Sprintf("%d/%s/%s", ng.id, j(fbs), j(ps)))
+				toks = append(toks, fmt.Sprintf("n/%d/%d/%s/%s", ng.id, ng.nameId, j(fbs), mem(ng.members)))
 			}
-			for _, c := range shared {
+			for _, c := range cnt {
 				if c > 1 {
 					stats.Inc("reload.shared_node")
 					break
@@ -430,7 +457,7 @@ func TestVerifC16Kernel(t *testing.T) {
 			oldCP := &ControlPlane{controlPlaneGenerationState: controlPlaneGenerationState{outbounds: og}}
 			newCP := &ControlPlane{controlPlaneGenerationState: controlPlaneGenerationState{outbounds: ng}}
 			overlap := newCP.InheritDialerHealthFrom(oldCP)
-			st.Emit("reload "+strings.Join(toks, " ")+" |", state())
+			st.Emit("handover "+strings.Join(toks, " ")+" |", state())
 			stats.Inc("reload")
 			if overlap {
 				stats.Inc("reload.overlap")
@@ -482,7 +509,7 @@ func TestVerifC16Kernel(t *testing.T) {
 					stats.Inc("op.floor")
 				}
 			case 11:
-				if len(nodes) < 14 {
+				if len(nodes) < 20 {
 					reload()
 				}
 			}
